@@ -161,9 +161,9 @@ def run(ctx: Ctx) -> None:
     # consuming construction per doc value, the reset after every dispatch, and the trailing scan ending at the line end
     # or at a plain comment that ends the line (otherwise it walks into the next declaration's block)
     from . import c11
-    from ..report import SubCtx
+    from ..report import SubCtx, run_shared
     t127 = "a doc comment is attributed once, reset after every dispatch, and the trailing scan does not reach the next declaration's comments (C11's rules)"
-    c11.run(SubCtx(ctx, {"R11.1": ("R12.7", t127), "R11.2": ("R12.7", t127), "R11.5": ("R12.7", t127), "R11.7": ("R12.7", t127)}))  # type: ignore[arg-type]
+    run_shared(ctx, c11.run, {"R11.1": ("R12.7", t127), "R11.2": ("R12.7", t127), "R11.5": ("R12.7", t127), "R11.7": ("R12.7", t127)})
 
 
 def _reaches_forward(cfg: CFG, a: Node, b: Node, head: Node) -> bool:
